@@ -553,6 +553,28 @@ def timeout_now_gate(cx):
                 from .match import _receiver_id
                 return _receiver_id(mm[0][1]) == target
             require(cx, s, cx.site_key(s, "timeout-now"), "MsgTimeoutNow goes to %s only if prs[%s].matched == raft_log.last_index()" % (show(target), show(target)), caught_up)
+            # ... and only to the node the pending transfer names: the guard compares it with lead_transferee, or
+            # lead_transferee was set to it on the way here, or it is read out of lead_transferee
+            LT = "RaftCore.lead_transferee"
+            def is_target(l, target=target):
+                if l[0] != "is" or l[2] is not True or l[1][0] != "bin" or l[1][1] != "Eq":
+                    return False
+                xs = l[1][2:4]
+                lt = [x for x in xs if is_f(x, LT) or (x[0] == "vfield" and is_f(x[1], LT))]
+                other = [x for x in xs if x not in lt]
+                if not lt or not other:
+                    return False
+                o = other[0]
+                return o == target or (o[0] == "adt" and o[1].endswith("Option::Some") and o[2] and o[2][0][1] == target)
+            okt = target[0] == "vfield" and is_f(target[1], LT)
+            if not okt:
+                from ..engine import _clause_holds
+                okt = _clause_holds(cx, s, is_target, False)[0]
+            if not okt:
+                g_ = cx.pg(s.fn)
+                sets_ = {w.block for w in cx.prog.writes.get(LT, []) if w.fn is s.fn and "stmt" in w.data and (lambda v: v[0] == "adt" and v[1].endswith("Option::Some") and v[2] and v[2][0][1] == target)(write_value(cx, w))}
+                okt = bool(sets_) and (s.block in sets_ or g_.dominated_by_block(s.at, lambda b: b in sets_))
+            cx.check(okt, cx.site_key(s, "timeout-now:target"), "MsgTimeoutNow goes only to the node the pending transfer names (lead_transferee)", s, target=show(target))
     cx.check(n >= 2, "floor", "both places that can complete a transfer (request arrival, later acknowledgement) were found")
 
 
